@@ -23,7 +23,8 @@
                              walk makes one incoming element the partner of two model elements, or imports an incoming
                              element and later merges it; an element ends up in two content lists
                              (witness C03_load_shared_refuted, the class is decided by an instrumented re-run);
-       Known_load_rejected : the load returns InvalidFileMerge (rollback path; not covered);
+       Known_load_rejected : the load returns InvalidFileMerge (rollback path): NOT needed for Core any more, see
+                             C03_core_inv2_full / C03_core_histories2_full (Known_load_shared is the only class);
      C03_core_inv2_partial: the earlier statement without OpLoad.  C03_load_master_core: non-vacuity.
      C03_inv2_partial / C03_inv2_real_partial / C03_histories2_real_partial: RealInv = TreeInv /\ CharsLeaf /\ OriginsRef
        over op2 WITHOUT OpLoad (pending_op2; CharsLeaf / OriginsRef of a loaded tree need facts about the parser's
@@ -42,7 +43,7 @@ From AV Require Import Base.Bytes Base.Outcome Hash.HashModel Tree.Heap Tree.Ops
   Tree.InvProofsDetFiles Tree.InvProofsDetFilesMain Tree.InvProofsOp2 Tree.InvExamples
   Tree.InvProofsChars Tree.InvProofsChars5 Tree.InvProofsOrigins3 Tree.InvProofsReal Tree.InvProofsRealTables Spec.SpecReal.
 From AV Require Import Tree.Script2 Tree.InvLoad Tree.InvProofsOp2Full Tree.InvProofsLoadExamples Tree.InvProofsOp2Lift
-  Tree.InvProofsOp2Real Tree.InvEBase Tree.InvProofsLoadLive Tree.InvProofsOp2Live.
+  Tree.InvProofsOp2Real Tree.InvEBase Tree.InvProofsLoadLive Tree.InvProofsOp2Live Tree.InvProofsOp2Rej.
 From AV Require Xml.TablesOk.
 From AV Require Tree.Load Tree.MergeSpec.
 Open Scope string_scope.
@@ -121,6 +122,31 @@ Theorem C03_core_histories2 :
     run_ops2 T tab_el tab_at tab_en check_fn float_parse float_fmt LATEST name_index name_definition_ref
              attr_schema_location root_attrs l w = Val w' -> Core w'.
 Proof. exact Core_histories2. Qed.
+
+(* Core over the whole alphabet outside the ONE genuine class: rejected loads (InvalidFileMerge, rollback by
+   Element::remove_from_file, drop of the incoming tree) are covered *)
+Theorem C03_core_inv2_full :
+  forall (T : tables) (tab_el tab_at tab_en : nametab) (check_fn : N -> list N -> res bool)
+         (float_parse : list N -> option N) (float_fmt : N -> list N)
+         (LATEST name_index name_definition_ref attr_schema_location : N) (root_attrs : list (N * cdata))
+         (o : op2) (w : world) (r : out value2) (w' : world),
+    Known_load_shared T tab_el tab_at tab_en check_fn float_parse LATEST name_definition_ref w o = false ->
+    Core w ->
+    run_op2 T tab_el tab_at tab_en check_fn float_parse float_fmt LATEST name_index name_definition_ref
+            attr_schema_location root_attrs o w = Val (r, w') -> Core w'.
+Proof. exact Core_step2_full. Qed.
+
+Theorem C03_core_histories2_full :
+  forall (T : tables) (tab_el tab_at tab_en : nametab) (check_fn : N -> list N -> res bool)
+         (float_parse : list N -> option N) (float_fmt : N -> list N)
+         (LATEST name_index name_definition_ref attr_schema_location : N) (root_attrs : list (N * cdata))
+         (l : list op2) (w w' : world),
+    Core w ->
+    clean_shared_ops2 T tab_el tab_at tab_en check_fn float_parse float_fmt LATEST name_index name_definition_ref
+                      attr_schema_location root_attrs l w = true ->
+    run_ops2 T tab_el tab_at tab_en check_fn float_parse float_fmt LATEST name_index name_definition_ref
+             attr_schema_location root_attrs l w = Val w' -> Core w'.
+Proof. exact Core_histories2_full. Qed.
 
 (* the class Known_load_shared is real (tiny tables of Tree/MergeSpec.v): both loads succeed, afterwards node 14 is
    listed by the nodes 6 and 7 and its parent link names 7: Core fails; merge_shared flags the second load *)
